@@ -162,8 +162,28 @@ class EndToEndOp(Op):
         return cases
 
 
+class IsRefOp(Op):
+    """expression.is_pyxform_reference (decides whether a repeat_count gets a generated *_count node) against Model/RefText.v"""
+    name = "R.is_pyxform_reference"
+    imports = ["PX.Model.RefText"]
+    fn = "fun s => if is_pyxform_reference s then [49%N] else [48%N]"
+    in_ty = "list N"
+    n_quick, n_thorough = 500, 5000
+
+    def generate(self, rng, n):
+        from pyxform.parsing.expression import is_pyxform_reference
+        atoms = ["${", "}", "a", "q1", "x-y", "a.b", "é", "_u", "1", " ", "+", "-", "${a}", "${q1}", "${last-saved#a}", "${last-saved#}", "last-saved#", ":", "${a:b}", "${a:}", "${:a}", "\n", "\r",
+                 "${a} + ${b}", "count(${a})", "#", "$", "{", "${1}", "${-a}", "${a }", "\u00a0"]
+        cases = []
+        for _ in range(n):
+            s = "".join(rng.choice(atoms) for _ in range(rng.randint(0, 4)))
+            exp = "1" if is_pyxform_reference(s) else "0"
+            cases.append({"coq": cstr(s), "expected": exp, "desc": {"value": s}, "class": "reference" if exp == "1" else "not a reference", "nontrivial": "${" in s})
+        return cases
+
+
 def ops(tier):
-    return [RowsOp(), c02.TreeOp(), EndToEndOp()]
+    return [RowsOp(), c02.TreeOp(), EndToEndOp(), IsRefOp()]
 
 
 # ---- direct oracle: an independent sheet-to-tree reader ---------------------------------------------------
